@@ -149,11 +149,13 @@ pub struct Knobs {
     pub max_str: usize,
     /// probability (per 100) of drawing a boundary-class size instead
     pub boundary_pct: u64,
+    /// now and then a container of more than 65536 one-byte elements
+    pub huge: bool,
 }
 
 impl Knobs {
     pub fn small() -> Self {
-        Knobs { max_depth: 4, max_nodes: 40, max_len: 4, max_str: 12, boundary_pct: 5 }
+        Knobs { max_depth: 4, max_nodes: 40, max_len: 4, max_str: 12, boundary_pct: 5, huge: false }
     }
     pub fn swarm(r: &mut Rng) -> Self {
         Knobs {
@@ -162,6 +164,7 @@ impl Knobs {
             max_len: *r.pick(&[1usize, 2, 4, 8, 17]),
             max_str: *r.pick(&[0usize, 3, 12, 40, 130]),
             boundary_pct: *r.pick(&[0u64, 5, 20]),
+            huge: false,
         }
     }
 }
@@ -314,6 +317,8 @@ impl<'a> GenCtx<'a> {
                 let et = self.any_type();
                 let n = if leafy { 0 } else { gen_len(self.r, &self.k.clone(), &LEN_BOUNDARY, self.k.max_len) };
                 let n = self.cap_len(n, et);
+                // rarely: more elements than any 16-bit bound (one-byte elements keep the message affordable)
+                let n = if self.k.huge && matches!(et, T_BOOL | T_I8) && self.r.chance(1, 4) { *self.r.pick(&[65536usize, 65537, 70000]) } else { n };
                 let xs = (0..n).map(|_| self.any_of_type(et, depth + 1)).collect();
                 if t == T_LIST {
                     TV::List(et, xs)
@@ -497,6 +502,7 @@ impl<'a> GenCtx<'a> {
                 let n = if leafy { 0 } else { gen_len(self.r, &self.k.clone(), &LEN_BOUNDARY, self.k.max_len) };
                 let et = wire_type(e);
                 let n = self.cap_len(n, et);
+                let n = if self.k.huge && matches!(et, T_BOOL | T_I8) && !leafy && self.r.chance(1, 4) { *self.r.pick(&[65536usize, 65537, 70000]) } else { n };
                 let mut xs: Vec<TV> = (0..n).map(|_| self.of_ty(sc, ev, e, depth + 1)).collect();
                 // a set element that occurs twice
                 if matches!(t, Ty::Set(_)) && !xs.is_empty() && self.r.chance(1, 6) {
@@ -642,7 +648,7 @@ pub fn container_chain(r: &mut Rng, depth: usize) -> TV {
 }
 
 fn small_knobs(max_depth: usize) -> Knobs {
-    Knobs { max_depth, max_nodes: 10, max_len: 3, max_str: 6, boundary_pct: 0 }
+    Knobs { max_depth, max_nodes: 10, max_len: 3, max_str: 6, boundary_pct: 0, huge: false }
 }
 
 /// A chain of `links` nested containers whose every level also holds sibling values before
